@@ -133,8 +133,54 @@ def alias(x, p):
                     'the call was made', new == expect)
 
 
+STARTS = [0x1ff8, 0x2000, 0x2ff8, 0x3008, 0x30f8, 0x3100, 0x31f8, 0x3200]
+LENS = [8, 16, 0x110]
+
+
+def history(x, p):
+    """Two writes in a row on a cart with concrete contents (the solver picks
+    addresses around every region boundary, lengths and what is written):
+    after each write the cart equals a flat 0x4300-byte memory that received
+    the same writes.  Concrete buffers, so whatever the implementation does
+    with them (comparisons, searches, slices) runs as it is."""
+    g = Game.make_empty_game(filename='x.p8')
+    fill = x.choice('fill', ['zeros', 'pattern'])
+    flat = bytearray(0x4300)
+    for name, cls, lo, hi in REGIONS:
+        d = getattr(g, name)._data
+        for k in range(hi - lo):
+            v = 0 if fill == 'zeros' else (
+                7 if fill == 'same' else (k * 7 + lo // 256 + 1) % 256)
+            d[k] = v
+            flat[lo + k] = v
+    for step in (1, 2):
+        start = x.choice('start%d' % step, STARTS)
+        n = x.choice('len%d' % step, LENS)
+        kind = x.choice('data%d' % step, ['zeros', 'ramp'])
+        if start + n > 0x4300:
+            x.tag('n/a')
+            return
+        data = bytes({'zeros': 0, 'sevens': 7}.get(kind, (k + step) % 251)
+                     if kind != 'ramp' else (k + step) % 251
+                     for k in range(n))
+        try:
+            g.write_cart_data(data, start)
+        except Exception as e:
+            x.check('an in-range write does not raise', False, info=repr(e))
+            return
+        flat[start:start + n] = data
+        got = b''.join(bytes(getattr(g, name)._data)
+                       for name, cls, lo, hi in REGIONS)
+        x.check('after write %d the cart equals the flat memory model' % step,
+                got == bytes(flat))
+        if got != bytes(flat):
+            return
+    x.out('sum', sum(flat) % 65536)
+
+
 HARNESSES = [
     Harness('write', write, quick=[{'max': 0x4310, '_budget': 300}],
             logic='QF_AUFBV'),
     Harness('alias', alias, quick=[{'_budget': 300}], logic='QF_AUFBV'),
+    Harness('history', history, quick=[{'_budget': 600}]),
 ]
